@@ -1,4 +1,5 @@
 #![allow(dead_code)]
+mod adversarial;
 mod astwalk;
 mod compat;
 mod coord;
@@ -6,6 +7,7 @@ mod digest;
 mod execb;
 mod fileid;
 mod gram;
+mod introdepth;
 mod lex;
 mod limits;
 mod linecol;
@@ -44,6 +46,10 @@ fn main() {
         "scalars-replay" => scalars::replay(rest),
         "scalars-revalidate" => scalars::revalidate(rest),
         "digest" => digest::run(rest),
+        "adv-run" => parse::isolated(rest, "adv-child"),
+        "adv-child" => adversarial::child(rest),
+        "adv-gen" => adversarial::gen(rest),
+        "introdepth-replay" => introdepth::replay(rest),
         "namerc-replay" => namerc::replay(rest),
         "namerc-stress" => namerc::stress(rest),
         "fileid-schedules" => fileid::schedules(rest),
